@@ -52,6 +52,8 @@ enum Op {
     TlInverse(u64, u64, u8),
     TlForward(u64, u64, u8),
     QuintantVertices(u32),
+    Boundary(u64, i32),
+    LookupNan(u8, i32),
 }
 
 fn orient(o: u8) -> Orientation {
@@ -130,6 +132,18 @@ fn exec(op: &Op) -> Result<Vec<u64>, String> {
             let s = DodecahedronProjection::get_thread_local().inverse(Face::new(f(*x), f(*y)), *o)?;
             vec![s.theta().get().to_bits(), s.phi().get().to_bits()]
         }
+        Op::Boundary(c, seg) => {
+            let o = a5::core::cell::CellToBoundaryOptions { closed_ring: false, segments: Some(*seg) };
+            a5::cell_to_boundary(*c, Some(o))?.iter().flat_map(|p| [p.longitude().to_bits(), p.latitude().to_bits()]).collect()
+        }
+        Op::LookupNan(which, res) => {
+            let p = match which % 3 {
+                0 => LonLat::new(f64::NAN, 0.0),
+                1 => LonLat::new(0.0, f64::NAN),
+                _ => LonLat::new(f64::INFINITY, 10.0),
+            };
+            vec![a5::lonlat_to_cell(p, *res)?]
+        }
         Op::TlForward(t, p, o) => {
             let sp = Spherical::new(Radians::new_unchecked(f(*t)), Radians::new_unchecked(f(*p)));
             let r = DodecahedronProjection::get_thread_local().forward(sp, *o)?;
@@ -153,6 +167,39 @@ fn first_touch(r: &mut R) -> Op {
 fn res0_cell(k: u64) -> u64 {
     // layout: 6 bits face, marker bit right below
     (k % 12) << 58 | 1u64 << 57
+}
+
+/// A valid cell of resolution `res` >= 2, built arithmetically (no library call needed).
+fn cell_at(face_seg: u64, s: u64, res: u32) -> u64 {
+    let bits = 2 * (res - 1);
+    ((face_seg % 60) << 58) | ((s & ((1u64 << bits) - 1)) << (58 - bits)) | (1u64 << (58 - bits - 1))
+}
+
+/// Contention profile: every thread works on the same one or two cells with the same few
+/// functions, so that process-wide keyed state (hand-off slots, "last value" shortcuts) is hit
+/// from several threads inside each other's calls.
+fn contention_plans(r: &mut R) -> Vec<Vec<Op>> {
+    let res = 2 + r.below(3) as u32;
+    let x = cell_at(r.next(), r.next(), res);
+    let y = if r.below(3) == 0 { cell_at(r.next(), r.next(), res) } else { cell_at(x >> 58, r.next(), res) };
+    let n_threads = 2 + r.below(2) as usize;
+    let mut plans = Vec::new();
+    for _ in 0..n_threads {
+        let mut ops = Vec::new();
+        for _ in 0..(3 + r.below(3)) {
+            let c = if r.below(2) == 0 { x } else { y };
+            ops.push(match r.below(10) {
+                0..=2 => Op::CellCenter(c),
+                3..=5 => Op::Boundary(c, 1),
+                6 => Op::Parent(c),
+                7 => Op::Children(c),
+                8 => Op::Deserialize(c),
+                _ => Op::LookupNan(r.below(3) as u8, r.below(2) as i32),
+            });
+        }
+        plans.push(ops);
+    }
+    plans
 }
 
 fn any_op(r: &mut R, allow_tl: bool) -> Op {
@@ -208,7 +255,8 @@ fn main() {
         }
     }
     let mut r = R(seed ^ 0x6d697269);
-    let n_threads = 2 + r.below(3) as usize;
+    let contention = seed % 3 == 2;
+    let n_threads = if contention { 0 } else { 2 + r.below(3) as usize };
     // at most two threads may use the per-thread projection (its cold start dominates the cost)
     let mut tl_budget = 2;
     let mut plans: Vec<Vec<Op>> = Vec::new();
@@ -225,6 +273,12 @@ fn main() {
         ops.truncate(max_ops.max(1));
         plans.push(ops);
     }
+    if contention {
+        plans = contention_plans(&mut r);
+        for p in plans.iter_mut() {
+            p.truncate(max_ops.max(1));
+        }
+    }
     let plans: Vec<Vec<Op>> = plans.into_iter().enumerate().filter(|(t, _)| threads_mask & (1 << t) != 0).map(|(_, p)| p).collect();
     if list {
         for (t, p) in plans.iter().enumerate() {
@@ -232,12 +286,30 @@ fn main() {
         }
         return;
     }
+    // Bias Miri's scheduler towards the windows where the library reads or writes hidden state:
+    // at a seed-dependent subset of the library's yield sites the thread offers the processor.
+    // (yield_now is a scheduling hint only; it adds no synchronisation.)
+    fn yield_hook(site: u32) {
+        thread_local! { static N: std::cell::Cell<u64> = const { std::cell::Cell::new(0) }; }
+        let n = N.with(|c| {
+            let v = c.get().wrapping_add(1);
+            c.set(v);
+            v
+        });
+        let k = YIELD_EVERY.load(Ordering::Relaxed);
+        if k > 0 && (n.wrapping_mul(0x9e3779b97f4a7c15) ^ site as u64) % k == 0 {
+            std::thread::yield_now();
+        }
+    }
+    static YIELD_EVERY: AtomicU64 = AtomicU64::new(0);
+    YIELD_EVERY.store([0u64, 2, 3, 7][(seed % 4) as usize], Ordering::Relaxed);
     // event tickets: Relaxed, so they add no happens-before edge that could mask a race
     let ticket = Arc::new(AtomicU64::new(0));
     let mut handles = Vec::new();
     for (t, plan) in plans.iter().cloned().enumerate() {
         let ticket = ticket.clone();
         handles.push(std::thread::spawn(move || {
+            a5::verif::set_yield_hook(Some(yield_hook));
             let mut out = Vec::new();
             for op in &plan {
                 let s = ticket.fetch_add(1, Ordering::Relaxed);
@@ -261,9 +333,21 @@ fn main() {
     }
     let mut mismatches = 0;
     let mut ref_hash: u64 = 0xcbf29ce484222325;
-    for op in &distinct {
+    // contention profile: all references in ONE brand-new thread (its cold start is paid once);
+    // otherwise each op is the first call of its own brand-new thread
+    let shared_refs: Vec<Result<Vec<u64>, String>> = if contention {
+        let d2 = distinct.clone();
+        std::thread::spawn(move || d2.iter().map(exec).collect()).join().expect("reference thread panicked")
+    } else {
+        Vec::new()
+    };
+    for (di, op) in distinct.iter().enumerate() {
         let o2 = op.clone();
-        let reference = std::thread::spawn(move || exec(&o2)).join().expect("reference thread panicked");
+        let reference = if contention {
+            shared_refs[di].clone()
+        } else {
+            std::thread::spawn(move || exec(&o2)).join().expect("reference thread panicked")
+        };
         match &reference {
             Ok(v) => {
                 for x in v {
